@@ -285,6 +285,9 @@ def canon_params(atoms):
     turning it into a closure over the same values, keeps the shape."""
     import re
     pat = re.compile(r'param:\^*arg\d+')
+    # a value computed in Python is opaque whether or not it was given a
+    # name first
+    atoms = [re.sub(r'\blocal\b', 'expr', a) for a in atoms]
     masked = sorted(atoms, key=lambda a: (pat.sub('param:#', a), a))
     label = {}
     out = []
@@ -312,7 +315,7 @@ def shape_rule(ctx, R, rule, qnames):
             raise model.AnalysisError('no reviewed SQL shape for %s' % q)
         want = canon_params(want['atoms'])
         got = canon_params(got)
-        R.ob(rule, 'sql-shape:%s' % q.split(':')[1], got == want,
+        R.ob(rule, 'sql-shape:%s' % q.split(':')[1], set(got) == set(want),
              'join keys, filters, aggregates and grouping of the query are '
              'the reviewed ones', 'added %s; removed %s' % (
                  sorted(set(got) - set(want)), sorted(set(want) - set(got))),
